@@ -18,7 +18,7 @@ RULE = ("case = (zone, local date, 'now' time of day, minute set); every minute 
         "that do not exist that day (DST gap) are counted as unspecified and skipped. Additional Hypothesis sub-checks: "
         "arbitrary epochs 0..2^32-1 decode to the zoneinfo wall time; random dates 1971..2105; malformed strings raise. "
         "Non-trivial = zone != UTC or date within one day of a transition; distinct by (zone, date, minute) / (zone, epoch) / string."
-        " 'now' carries a sub-second part in two of three cases; malformed strings include digit separators, signs, inner/trailing blanks, a third digit, non-ASCII digits and a trailing line end.")
+        " 'now' carries a sub-second part in two of three cases; malformed strings include digit separators, signs, inner/trailing blanks, a third digit, non-ASCII digits and a trailing line end. text-forms: the clock text as a str-subclass instance and as a (str, Enum) member.")
 ASSUMPTIONS = [
     "time_machine freezes time.time/localtime/strftime and sets TZ+tzset for ZoneInfo destinations",
     "zoneinfo and glibc read the same system tz database",
@@ -86,6 +86,41 @@ def body_roundtrip(rep, case, sub="roundtrip"):
             back = tools.hexadecimale_timestamp_to_localtime(enc.encode())
             if back != text:
                 raise Violation("C11/roundtrip", one, text, back)
+
+
+def body_forms(rep, case):
+    """The clock text handed over as a str-subclass instance / a (str, Enum) member: same encoding as the plain str."""
+    from .. import gen
+    tools = _tools()
+    zname, m, form = case["zone"], case["minute"], case["form"]
+    y, mo, d = case["date"]
+    with vclock.frozen(zname, y, mo, d, 12, 0, 0) as dest:
+        today = dest.astimezone(vclock.zone(zname)).date()
+        cands = vclock.candidates(zname, today, m // 60, m % 60)
+        if not cands:
+            rep.label("nonexistent-skipped")
+            return
+        rep.tick("text-forms", key=(zname, y, mo, d, m, form), nontrivial=True, sample=case, labels=(f"form={form}",))
+        try:
+            enc = tools.time_to_hexadecimal_timestamp(gen.text_form(hhmm(m), form))
+        except Exception as exc:
+            raise Violation(f"C11/encode-raises/{form}", case, sorted(cands), f"{type(exc).__name__}: {exc}")
+        try:
+            val = int.from_bytes(bytes.fromhex(enc), "little") if len(enc) == 8 else None
+        except (ValueError, TypeError):
+            val = None
+        if val not in cands:
+            raise Violation(f"C11/encode-wrong-epoch/{form}", case, sorted(cands), enc)
+
+
+def cases_forms():
+    from .. import gen
+    out = []
+    for form in gen.TEXT_FORMS:
+        for zi, zname in enumerate(vclock.QUICK_ZONES):
+            for m in range(zi, 1440, 53):
+                out.append({"zone": zname, "date": [2024, 6, 15], "minute": m, "form": form})
+    return out
 
 
 def body_decode(rep, case):
@@ -203,5 +238,6 @@ def subchecks(tier):
         Sub("random-dates", lambda rep, case: body_roundtrip(rep, case, "random-dates"), strategy=strat_random_dates,
             n=40_000 if big else 600, shards=16 if big else 2),
         Sub("decode-any-epoch", body_decode, strategy=strat_decode, n=200_000 if big else 2500, shards=16 if big else 2),
+        Sub("text-forms", body_forms, cases=cases_forms, shards=2),
         Sub("malformed", body_malformed, strategy=strat_malformed, n=20_000 if big else 800, shards=4 if big else 1),
     ]
